@@ -234,7 +234,7 @@ Proof.
   intro S. destruct S; try (exists []; reflexivity).
   - exists [c]. reflexivity.
   - unfold failf. destruct (_ =? 0); exists []; reflexivity.
-  - unfold generate. destruct (d_gen_batch (getd w d) <=? 0); exists []; reflexivity.
+  - unfold generate. destruct (gen_size (getd w d) =? 0); exists []; reflexivity.
   - apply out_ext_maint_call.
   - apply out_ext_rm_call.
   - destruct (out_ext_rm_call w (fun _ => fst (reserve nw rq (clean_rs (f_rm w))))) as [l Hl]. exists l. exact Hl.
